@@ -307,6 +307,20 @@ func sizeDocs(sizes []int, elementWise bool) []doc {
 	return out
 }
 
+// rootSizeDocs: the same payload kinds as the ROOT value of the document, where nothing is read behind
+// the payload: a payload cut short at a block boundary is then not betrayed by the next tag being
+// missing. Targets that cannot hold a bare array/string/list skip them (Optional inputs).
+func rootSizeDocs(sizes []int, elementWise bool) []doc {
+	var out []doc
+	for _, d := range sizeDocs(sizes, elementWise) {
+		if d.tree.Tag != refnbt.Compound || len(d.tree.Fields) != 2 || d.tree.Fields[0].Name == "unknown" || strings.HasSuffix(d.id, ":key") {
+			continue
+		}
+		out = append(out, doc{id: d.id + ":as-root", tree: d.tree.Fields[0].Val})
+	}
+	return out
+}
+
 func docInputs(docs []doc, network, optional bool, rootName string) []Input {
 	out := make([]Input, 0, len(docs))
 	for _, d := range docs {
@@ -331,10 +345,20 @@ func nbtReadOps(genNodes int, sizes []int, thorough bool) (ops []*ReadOp, nGen i
 		// Size-class documents. Every target gets the bulk kinds in one of its two formats (the formats
 		// differ in the root header, not in the payload paths); the element-wise kinds go to one target
 		// per reading routine: typed (unmarshal + the skipping rawRead), any, dynbt.Value and
-		// StringifiedMessage. The thorough tier adds, for the classes up to allOffsetsUpTo bytes, every
+		// (thorough tier) StringifiedMessage. The thorough tier adds, for the classes up to allOffsetsUpTo bytes, every
 		// kind on every target in both formats.
 		with := func(o *ReadOp, ins []Input, sized, ownRoutine bool) *ReadOp {
 			o.Inputs = append([]Input(nil), ins...)
+			if sized || thorough {
+				rs := sizes
+				if !sized {
+					rs = small
+				}
+				o.Inputs = append(o.Inputs, docInputs(rootSizeDocs(rs, false), network, true, "root")...)
+				if ownRoutine || thorough {
+					o.Inputs = append(o.Inputs, docInputs(rootSizeDocs(rs, true), network, true, "root")...)
+				}
+			}
 			switch {
 			case sized:
 				o.Inputs = append(o.Inputs, docInputs(sizeDocs(sizes, false), network, false, "root")...)
@@ -357,8 +381,22 @@ func nbtReadOps(genNodes int, sizes []int, thorough bool) (ops []*ReadOp, nGen i
 			with(decodeOp[map[string]any]("map", network), handIn, network, false),
 			with(decodeOp[nbt.RawMessage]("RawMessage", network), both, !network, false),
 			with(decodeOp[dynbt.Value]("dynbt.Value", network), both, network, true),
-			with(decodeOp[nbt.StringifiedMessage]("StringifiedMessage", network), both, !network, true),
+			with(decodeOp[nbt.StringifiedMessage]("StringifiedMessage", network), both, !network, thorough), // quick tier: bulk kinds only
 		)
+	}
+	// bare arrays, strings and lists as the root value into typed destinations
+	bothKinds := func(sz []int) []doc { return append(rootSizeDocs(sz, false), rootSizeDocs(sz, true)...) }
+	rootIn := append(docInputs(bothKinds(append([]int{3}, sizes...)), false, true, "root"), docInputs(bothKinds(small), true, true, "")...)
+	for i := range rootIn {
+		if i >= len(rootIn)-len(bothKinds(small)) {
+			rootIn[i].ID += ":network"
+		}
+	}
+	with := func(o *ReadOp) *ReadOp { o.Inputs = rootIn; return o }
+	ops = append(ops, with(decodeOp[[]byte]("[]byte", false)), with(decodeOp[[]int32]("[]int32", false)), with(decodeOp[[]int64]("[]int64", false)),
+		with(decodeOp[string]("string", false)), with(decodeOp[[]string]("[]string", false)), with(decodeOp[[]int16]("[]int16", false)))
+	for _, o := range ops[len(ops)-6:] {
+		o.Name = strings.Replace(o.Name, ",file]", ",root-value]", 1)
 	}
 	// NBTField (network format, counts bytes)
 	handNet := docInputs(hand, true, false, "")
